@@ -1160,6 +1160,9 @@ def _infer_expr_type(
             if owner.id in sensors:
                 return "float"
 
+        if isinstance(owner, ast.Name) and attr in _DEVICE_GETTER_TYPES:
+            return _DEVICE_GETTER_TYPES[attr]
+
     if isinstance(node, ast.Call) and isinstance(node.func, ast.Name):
         fname = node.func.id
 
@@ -1325,6 +1328,17 @@ def _names_bound_in_block(lines: List[str]) -> Set[str]:
 
 
 _PURE_BUILTINS = {"len", "abs", "min", "max", "int", "float", "bool"}
+
+# result types of the device getters whose name identifies them
+_DEVICE_GETTER_TYPES = {
+    "get_frequency": "float",
+    "get_last_frequency": "float",
+    "get_speed": "float",
+    "get_applied_speed": "float",
+    "is_inverted": "bool",
+    "is_pressed": "bool",
+    "get_mode": "String",
+}
 
 
 def _range_limit_is_invariant(
